@@ -925,7 +925,7 @@ package engine
 //@   trusted
 //@   modifies *
 
-//@ func searchReplace [C05 C06 C04]
+//@ func searchReplace [C05 C06]
 //@   noframe
 //@   modifies *
 //@   requires c != nil && reader != nil && rdInv(reader) && c.Skip >= 0 && c.Take >= 0 && c.Last >= 0 && (mode == NEW || mode == OVERWRITE || mode == NOTHING)
@@ -945,6 +945,7 @@ package engine
 //@   loop 1 invariant shape: len(replacedMatches) == rangeindex + 1 && rangeindex < len(foundMatches) && (replacedMatches.ref != foundMatches.ref || len(foundMatches) == 0) && rdInv(reader) && rdData(reader) == d && fs == fs0
 //@   loop 1 invariant found: (forall j :: { foundMatches[j] } 0 <= j && j < len(foundMatches) ==> matchOk(foundMatches[j], d, filename) && varsOk(foundMatches[j].Variables) && !foundMatches[j].Replacement.hasValue) && (forall j :: { foundMatches[j] } { foundMatches[j + 1] } 0 <= j && j + 1 < len(foundMatches) ==> foundMatches[j].Offset.End <= foundMatches[j + 1].Offset.Start)
 //@   loop 1 invariant window: (c.Last != 0 ==> len(foundMatches) <= c.Last) && (!c.All && c.Last == 0 ==> len(foundMatches) <= c.Take) && (len(foundMatches) > 0 ==> foundMatches[0].MatchNumber > c.Skip) && (c.Last == 0 && len(foundMatches) > 0 ==> foundMatches[0].MatchNumber == c.Skip + 1) && (forall k :: { foundMatches[k] } { foundMatches[k + 1] } 0 <= k && k + 1 < len(foundMatches) ==> foundMatches[k + 1].MatchNumber == foundMatches[k].MatchNumber + 1) [C04]
+//@   loop 1 invariant numbers: forall j :: { replacedMatches[j] } 0 <= j && j <= rangeindex ==> replacedMatches[j].MatchNumber == foundMatches[j].MatchNumber [C04]
 //@   loop 1 invariant done: forall j :: { replacedMatches[j] } 0 <= j && j <= rangeindex ==> sameMatchBut(replacedMatches[j], foundMatches[j]) && replText(replacedMatches[j]) == select(select(R, j), nr) && select(select(R, j), 0) == "" && (forall k :: { c.Replacer[k] } 0 <= k && k < nr ==> stepText(select(R, j), k, c.Replacer[k], foundMatches[j], len(foundMatches)))
 //@   loop 2 ghost C (Array Int Str) := store(C, 0, "") ;; store(C, current_state.programCounter, replText(current_state.match))
 //@   loop 2 invariant state: current_state != nil && varsOk(current_state.variables) && 0 <= current_state.programCounter && current_state.programCounter <= nr && sameMatchBut(current_state.match, match) && fs == fs0
